@@ -278,10 +278,13 @@ def touched_addresses(state):
     return t
 
 
-def classify_diff(text):
-    """Signature component: the macros present in the unit (coarse root-cause bucket)."""
-    ms = sorted(set(re.findall(r'#[A-Z]+', text)))
-    return '+'.join(m[1:] for m in ms)[:60]
+def classify_diff(text, ignore=()):
+    """Signature component (coarse root-cause bucket): the macro, if the unit uses only one kind of
+    macro (shrinking usually gets there), else 'multi'."""
+    ms = sorted(set(re.findall(r'#[A-Z]+', text)) - set(ignore))
+    if not ms:
+        return 'text'
+    return ms[0][1:] if len(ms) == 1 else 'multi'
 
 
 def expand_both(text, mode, touched, case):
@@ -445,32 +448,33 @@ class History(RuleBasedStateMachine):
         self.mode = None
         self.depth = 0
         self.dead = False
-        self.last = None
-        self.steps = 0
 
     @initialize(mode=mode_st)
     def init(self, mode):
         self.mode = list(mode)
 
-    def _add(self, item, probe=None):
+    def _step(self, item, keep):
+        """Judge the unit `items + [item] + state probe`; a state-changing item is kept for the rest of the history."""
         if self.dead or self.mode is None:
-            return
-        case = {'kind': 'hist', 'mode': self.mode, 'items': self.items + [item], 'probe': probe}
+            return False
+        case = {'kind': 'hist', 'mode': self.mode, 'items': self.items + ([item] if keep else []), 'probe': None if keep else [item]}
         try:
             built = hist_oracle(case, self.rec)
         except Violation as v:
             if v.sig in self.excluded or (self.rec is not None and self.rec.is_known(v)):
                 self.dead = True
-                return
+                return False
             raise
         if built is None:
-            return            # the item took the unit out of the documented domain: not appended
-        if probe is None:
+            return False      # the item took the unit out of the documented domain: not appended
+        if keep:
             self.items.append(item)
-        self.last = built
-        self.steps += 1
         if self.rec is not None:
             record(self.rec, built, 'hist', {'mode': self.mode, 'text': built['text'][:400], 'expected': norm(built['expected'])[:200], 'items': len(self.items)})
+        return True
+
+    def _add(self, item):
+        return self._step(item, True)
 
     @rule(item=st.one_of(let_node, let_node, lets_simple, letd_node, letk_int, letk_str))
     def let(self, item):
@@ -482,18 +486,13 @@ class History(RuleBasedStateMachine):
 
     @rule(name=st.one_of(st.just(''), safeword), g=tiny)
     def pushs(self, name, g):
-        if self.depth < 3:
-            n0 = len(self.items)
-            self._add(['pushs', name, g])
-            if len(self.items) > n0:
-                self.depth += 1
+        if self.depth < 3 and self._add(['pushs', name, g]):
+            self.depth += 1
 
     @precondition(lambda self: self.depth > 0)
     @rule(g=tiny)
     def pops(self, g):
-        n0 = len(self.items)
-        self._add(['pops', g])
-        if len(self.items) > n0:
+        if self._add(['pops', g]):
             self.depth -= 1
 
     @rule(item=def_node)
@@ -503,21 +502,7 @@ class History(RuleBasedStateMachine):
     @rule(item=st.one_of(text, call_node))
     def probe(self, item):
         if macroref.is_pure(item):
-            self._add_probe(item)
-
-    def _add_probe(self, item):
-        if self.dead or self.mode is None:
-            return
-        case = {'kind': 'hist', 'mode': self.mode, 'items': list(self.items), 'probe': [item]}
-        try:
-            built = hist_oracle(case, self.rec)
-        except Violation as v:
-            if v.sig in self.excluded or (self.rec is not None and self.rec.is_known(v)):
-                self.dead = True
-                return
-            raise
-        if built is not None and self.rec is not None:
-            record(self.rec, built, 'hist', {'mode': self.mode, 'text': built['text'][:400], 'expected': norm(built['expected'])[:200]})
+            self._step(item, False)
 
 
 def ddmin_items(case, sig, budget_s=30.0):
@@ -637,7 +622,8 @@ def cli_oracle(case, rec=None):
                 if os.path.exists(sc.path('t.ref')):
                     os.remove(sc.path('t.ref'))
             else:
-                sc.write('t.ref', ('[Fact:probe:Probe]\n%s%s%s\n' % (B, text, E)).encode('utf-8'))
+                # a ref file section is HTML: the author writes & < > as entities (what SkoolParser does for skool comments)
+                sc.write('t.ref', ('[Fact:probe:Probe]\n%s%s%s\n' % (B, html.escape(text, False), E)).encode('utf-8'))
             page = 'out/t/reference/facts.html' if place == 'ref' else 'out/t/asm/32768.html'
             tools.append(('skool2html', opts + ['-d', sc.path('out'), 't.skool'], page))
             for tool, argv, page in tools:
@@ -657,10 +643,10 @@ def cli_oracle(case, rec=None):
                     found = extract(sc.read(page))
                     got = [collapse(html.unescape(re.sub(r'<[^>]*>', '', x))) for x in found]
                 if not got:
-                    raise Violation('%s:%s:lost' % (tool, place), '%s: no expansion found for the unit placed in the %s: %r' % (tool, place, text), case)
+                    raise Violation('%s:lost' % tool, '%s: no expansion found for the unit placed in the %s: %r' % (tool, place, text), case)
                 for g in got:
                     if g != exp:
-                        raise Violation('%s:%s:%s' % (tool, place, classify_diff(text)),
+                        raise Violation('%s:%s' % (tool, classify_diff(text, ('#PUSHS', '#POPS'))),
                                         '%s, unit in the %s, mode base=%d case=%d: %r expands to %r, documented value %r' % (
                                             tool, place, mode[0], mode[1], text, g, exp), case)
                 results[(tool, place)] = got[0]
@@ -684,14 +670,14 @@ cli_cases = st.builds(lambda a, m: {'kind': 'cli', 'ast': a, 'mode': list(m)}, c
 # ---------------------------------------------------------------------------
 def plan(tier, seed):
     shards = []
-    nunit = 24000 if tier == 'quick' else 1000000
+    nunit = 20000 if tier == 'quick' else 1000000
     nsh = 16 if tier == 'quick' else 64
     for i in range(nsh):
         shards.append({'kind': 'unit', 'n': nunit // nsh, 'seed': shard_seed(seed, PROPERTY, 'u%d' % i)})
-    nhist = 320 if tier == 'quick' else 12000
+    nhist = 256 if tier == 'quick' else 12000
     for i in range(16):
         shards.append({'kind': 'hist', 'n': nhist // 16, 'steps': 12 if tier == 'quick' else 30, 'seed': shard_seed(seed, PROPERTY, 'h%d' % i)})
-    ncli = 160 if tier == 'quick' else 10000
+    ncli = 128 if tier == 'quick' else 10000
     for i in range(16):
         shards.append({'kind': 'cli', 'n': ncli // 16, 'seed': shard_seed(seed, PROPERTY, 'c%d' % i)})
     return shards
